@@ -5,6 +5,6 @@ CONSTANTS
   MtimeDigits = {10, 19}
   MaxVols = 2
   MaxVolEntries = 1
-INVARIANTS TypeOK AcceptWhole ReadersAgree WriterWholeOK
+INVARIANTS TypeOK AcceptWhole ReadersAgree WriterWholeOK WriterTruncates
 PROPERTIES Refines AllJudged
 CHECK_DEADLOCK FALSE
